@@ -40,9 +40,16 @@ def build_common(ctx, prop_file=None):
     return proof_broken, rep, driver
 
 
+def has_h10():
+    """hook H10 (memo-table records + verif_note in the protocol log) present in the salsa tree?"""
+    p = os.path.join(common.REPO, "src", "verif_proto.rs")
+    return os.path.exists(p) and "verif_fetch_trace" in open(p).read()
+
+
 def build_harness(std=False):
     if not std:
-        rel = common.cargo_build(HARNESS_CRATE, TARGET_SHUTTLE)
+        # with H10 in the tree the harness is built with its markers (off unless --fetch-trace)
+        rel = common.cargo_build(HARNESS_CRATE, TARGET_SHUTTLE, features=["fetchtrace"] if has_h10() else None)
         return os.path.join(rel, BIN)
     cdir = common.crate_dir(HARNESS_CRATE)
     for f in ("Cargo.lock", "rust-toolchain.toml"):
@@ -69,6 +76,88 @@ def replay_traces(trace_dirs):
     cov = dict(re.findall(r"COVERAGE (\S.*?) (\d+)$", lg, re.M))
     return dict(files=files, ok=okn, mismatch=mism, steps=steps, cov=cov,
                 mismatches=[l for l in lg.split("\n") if l.startswith("MISMATCH")])
+
+
+def build_replay2():
+    """the CFetch2 trace replayer (ocaml/cfetch): extraction of coq/CFetch2 + replay2.ml"""
+    exe = os.path.join(common.BUILD, "ocaml-cfetch", "replay2")
+    deps = [os.path.join(common.COQ, "CFetch2", "Model.vo"), os.path.join(common.COQ, "CFetch2", "Extract.v"),
+            os.path.join(common.ROOT, "ocaml", "cfetch", "replay2.ml")]
+    if os.path.exists(exe) and all(os.path.exists(d) and os.path.getmtime(d) <= os.path.getmtime(exe) for d in deps):
+        return exe
+    common.sh([os.path.join(common.ROOT, "ocaml", "cfetch", "build.sh")], timeout=900, check=True,
+              env={"COQROOT": common.COQ})
+    return exe
+
+
+def fetch_stage(ctx, harness, driver, out_root, own_kinds):
+    """CFetch-level trace replay (hook H10).  Programs of the fragment CFetch2 models exactly
+    (profile static-low) are explored with the memo-table records switched on; EVERY explored
+    schedule's trace (H2 protocol records + H10 memo-table records + harness notes, one totally
+    ordered log) is replayed through the extracted CFetch2 model: each recorded step must be an
+    enabled step of the named handle with the recorded outcome, the model's memo must carry the
+    recorded stamps and value digest after each publish / mark, returned values are the model's.
+    -> (coverage dict, findings of the value/exec checks on these cases, mismatch lines, cases, spec)"""
+    if not has_h10():
+        return dict(fetch_replay="hook H10 is not in the salsa tree: stage skipped"), [], [], [], {}
+    okm, logm = common.coq_make(["CFetch2/Model.vo"])
+    if not okm:
+        raise common.CheckError("CFetch2/Model.v does not compile:\n" + logm[-2000:])
+    exe = build_replay2()
+    quick = ctx.tier == "quick"
+    ncases = 20 if quick else 120
+    iters = 150 if quick else 400
+    cases = list(pe.corpus("C16-static")) + pe.generate(ctx.seed, "static-low", ncases, "quick" if quick else "thorough", prefix="f")
+    spec = pe.specification(cases, driver)
+    res, tdirs = {}, []
+    for sched in ("pct", "random"):
+        td = os.path.join(out_root, "ft-" + sched)
+        os.makedirs(td, exist_ok=True)
+        out, hung = pe.run_harness(cases, harness, iters, sched, ctx.seed, trace_dir=td, trace_cap=10 ** 9,
+                                   fetch_trace=True)
+        res[sched] = (out, hung)
+        tdirs.append(td)
+    fnd = findings_for(cases, spec, res, "readers", ("values", "reference", "failure", "exec", "harness"))
+    herr = [x for x in fnd if x[2]["kind"] == "harness"]
+    if herr:
+        raise common.CheckError(f"par_harness (--fetch-trace) produced no usable output: {herr[0][2]}")
+    casefile = os.path.join(out_root, "fetch-cases.txt")
+    with open(casefile, "w") as f:
+        f.write("\n".join(cases) + "\n")
+    rc, lg = common.sh([exe, casefile] + tdirs, timeout=3000)
+    m = re.search(r"TOTAL2 files=(\d+) ok=(\d+) mismatch=(\d+) skipped=(\d+) steps=(\d+)", lg)
+    if not m:
+        raise common.CheckError("replay2 produced no TOTAL2 line:\n" + lg[-2000:])
+    files, okn, mism, skipped, steps = map(int, m.groups())
+    if skipped:
+        raise common.CheckError("replay2 skipped traces (program outside the fragment?):\n" +
+                                "\n".join(l for l in lg.split("\n") if l.startswith("SKIPPED"))[:1500])
+    st = {s: pe.stats(o) for s, (o, _) in res.items()}
+    cov = {
+        "fetch_replay": "every explored schedule of the static-low programs replayed step by step through the extracted CFetch2 model",
+        "fetch_cases": len(cases), "fetch_iterations_per_case_and_scheduler": iters,
+        "fetch_traces_replayed": files, "fetch_traces_ok": okn, "fetch_trace_mismatches": mism,
+        "fetch_model_steps_replayed": steps,
+        "fetch_schedules_with_a_real_wait": sum(v["with_wait"] for v in st.values()),
+        "fetch_step_coverage": dict(re.findall(r"COVERAGE (\S.*?) (\d+)$", lg, re.M)),
+    }
+    return cov, fnd, [l for l in lg.split("\n") if l.startswith("MISMATCH")], cases, spec
+
+
+def keep_trace_group(mismatch_line, name):
+    """copy all segments of the mismatching iteration next to the replays"""
+    m = re.match(r"MISMATCH (\S+) ", mismatch_line)
+    if not m:
+        return None
+    base = m.group(1)
+    d = os.path.join(common.ROOT, "replays", name)
+    os.makedirs(d, exist_ok=True)
+    kept = []
+    for f in sorted(os.listdir(os.path.dirname(base))):
+        if f.startswith(os.path.basename(base) + "-") and f.endswith(".trace"):
+            shutil.copy(os.path.join(os.path.dirname(base), f), os.path.join(d, f))
+            kept.append(os.path.join(d, f))
+    return kept
 
 
 def keep_file(src, name):
@@ -202,6 +291,9 @@ def run_readers(ctx, own_kinds, what, note, nontrivial_desc):
     harness_err = [x for x in fnd if x[2]["kind"] == "harness"]
     if harness_err:
         raise common.CheckError(f"par_harness produced no usable output: {harness_err[0][2]}")
+    # CFetch-level trace replay (hook H10) on the programs of the fragment CFetch2 models exactly
+    fcov, ffnd, fmis, fcases, fspec = fetch_stage(ctx, harness, driver, out_root, own_kinds)
+    fnd = fnd + ffnd
     own = [x for x in fnd if x[2]["kind"] in own_kinds]
     other = [x for x in fnd if x[2]["kind"] not in own_kinds]
     rp = replay_traces(tdirs)
@@ -215,7 +307,7 @@ def run_readers(ctx, own_kinds, what, note, nontrivial_desc):
         report(ctx, c, sched, f, harness, driver, iters, "readers", own_kinds, what)
     # (b) no failing schedule, but the property is no longer shown: proof broken, or the recorded
     #     protocol steps are no longer the model's
-    if not own and (proof_broken is not None or rp["mismatch"]):
+    if not own and (proof_broken is not None or rp["mismatch"] or fmis):
         extra = None
         if quick:
             # failing-input search with the thorough budget
@@ -229,6 +321,17 @@ def run_readers(ctx, own_kinds, what, note, nontrivial_desc):
                 extra = "found by the failing-input search"
             else:
                 extra = sum(pe.stats(o)["schedules"] for o, _ in res2.values())
+        if not ctx.violations and fmis and proof_broken is None and not rp["mismatch"]:
+            case_id = os.path.basename(fmis[0].split()[1]).rsplit("-", 2)[0]
+            ctx.violation(dict(kind="correspondence model/implementation no longer holds",
+                               relation="CFetch2 model vs recorded memo-table + protocol steps (hooks H10 + H2): every recorded "
+                                        "step must be an enabled step of the named handle with the recorded outcome",
+                               first_mismatch=fmis[0][:600], mismatching_traces=len(fmis),
+                               trace_files=keep_trace_group(fmis[0], f"{ctx.prop}-fetchtrace-{ctx.seed}"),
+                               trace_case=next((c for c in fcases if c.split()[1] == case_id), None),
+                               how_to_replay=".build/ocaml-cfetch/replay2 --verbose <file with trace_case> <directory of trace_files>",
+                               search=f"no explored schedule violates the specification ({extra} more schedules searched)"),
+                          no_input=True)
         if not ctx.violations:
             keep = None
             if rp["mismatch"]:
@@ -259,7 +362,8 @@ def run_readers(ctx, own_kinds, what, note, nontrivial_desc):
         "trusted_base": common.TRUSTED_BASE_COMMON + [
             "shuttle 0.9.3 (PCT depth 3 and random schedulers, deadlock detection, step bound 200000) as the schedule controller of salsa's `shuttle` build",
             "hook H2 appends each protocol record while the critical section's locks are held; the harness' event callback counts WillExecute/WillBlockOn truthfully",
-            "the CFetch guards (publish/mark_verified store the from-scratch value, verified at the current revision): proved for one thread (C01), assumed under interference",
+            "the CFetch guards (publish/mark_verified store the from-scratch value, verified at the current revision): discharged over CFetch2 for static call lists and LOW durabilities (C16_memo_writes_sound); for dynamic call lists / the durability short-cut proved for one thread only (C01)",
+            "hook H10 (when present): each memo-table record is appended immediately after ONE atomic operation (memo pointer load, verified_at load, verified_at store, memo swap); under shuttle no scheduling point lies between the operation and the append (shuttle switches before an atomic access, the log's own mutex is a std mutex), with OS threads a process-wide std mutex is held across operation + append while the records are switched on; the value digest is FNV-1a over the value's bytes",
             "each shared access of fetch_cold / maybe_changed_after_cold is one atomic step; atomics are sequentially consistent; condvar semantics outside the model"],
         "theorems": rep["statements"] if rep else [],
         "axioms_reported": rep["axioms"] if rep else [],
@@ -282,7 +386,9 @@ def run_readers(ctx, own_kinds, what, note, nontrivial_desc):
         "samples": [sample],
         "wall_s": round(time.time() - t0, 1),
     })
-    ctx.assumptions = ["critical sections are atomic", "the CFetch guards hold under interference (not proved)",
+    ctx.coverage.update(fcov)
+    ctx.assumptions = ["critical sections are atomic",
+                       "the CFetch guards hold under interference outside the CFetch2 fragment (static call lists, LOW durabilities)",
                        "shuttle explores real interleavings of salsa's shuttle build"]
     ctx.write_evidence("proof")
     shutil.rmtree(out_root, ignore_errors=True)
